@@ -264,32 +264,44 @@ Loaded == LoadedFrom(store)
 
 (* abort: the registered objects are invalidated and come back from the     *)
 (* store; everything else keeps its in-memory state                         *)
-Abort ==
-  LET inv == SeqSet(reg)
-      embs == {id \in inv : store[id].f = "emb"}
-      fresh(id) == 2000 + id        \* renamed below to small ids
-      h1 == [x \in DOMAIN heap \cup {fresh(id) : id \in embs} |->
+\* the heap after the objects `inv` (stored ones) were invalidated / turned into ghosts and came back
+\* from their stored records; a record in the inline form rebuilds its leaf as a fresh object
+FreshOf(id) == 2000 + id
+RECURSIVE RenameFresh(_, _)
+RenameFresh(h, S) == IF S = {} THEN h ELSE
+  LET id == CHOOSE x \in S : TRUE
+      nid == NewId(h)
+      h2 == [x \in (DOMAIN h \ {FreshOf(id)}) \cup {nid} |->
+               IF x = nid THEN h[FreshOf(id)]
+               ELSE IF x = id THEN Inner(<<nid>>, <<0>>, nid) ELSE h[x]]
+  IN RenameFresh(h2, S \ {id})
+Reloaded(h, inv) ==
+  LET embs == {id \in inv : store[id].f = "emb"}
+      h1 == [x \in DOMAIN h \cup {FreshOf(id) : id \in embs} |->
                IF x >= 2000 THEN Leaf(store[x - 2000].ks, store[x - 2000].vs, store[x - 2000].nx)
                ELSE IF x \in inv
-                 THEN (IF store[x].f = "emb" THEN Inner(<<fresh(x)>>, <<0>>, fresh(x)) ELSE StoredNode(store, x))
-                 ELSE heap[x]]
-      \* give the rebuilt inline leaf a small unused id (only the root can be inline unless deviating)
-      RECURSIVE Rename(_, _)
-      Rename(h, S) == IF S = {} THEN h ELSE
-        LET id == CHOOSE x \in S : TRUE
-            nid == NewId(h)
-            h2 == [x \in (DOMAIN h \ {fresh(id)}) \cup {nid} |->
-                     IF x = nid THEN h[fresh(id)]
-                     ELSE IF x = id THEN Inner(<<nid>>, <<0>>, nid) ELSE h[x]]
-        IN Rename(h2, S \ {id})
-  IN /\ heap' = PGC(Rename(h1, embs), <<>>, store)
-     /\ reg' = <<>>
-     /\ m' = cm
-     /\ act' = [op |-> "abort", k |-> 0, v |-> 0]
-     /\ res' = [impl |-> OK, abs |-> OK]
-     /\ nops' = 0
-     /\ UNCHANGED <<oids, store, cm, ncommit>>
+                 THEN (IF store[x].f = "emb" THEN Inner(<<FreshOf(x)>>, <<0>>, FreshOf(x)) ELSE StoredNode(store, x))
+                 ELSE h[x]]
+  IN RenameFresh(h1, embs)
 
+Abort ==
+  /\ heap' = PGC(Reloaded(heap, SeqSet(reg)), <<>>, store)
+  /\ reg' = <<>>
+  /\ m' = cm
+  /\ act' = [op |-> "abort", k |-> 0, v |-> 0]
+  /\ res' = [impl |-> OK, abs |-> OK]
+  /\ nops' = 0
+  /\ UNCHANGED <<oids, store, cm, ncommit>>
+
+(* C05: eviction.  Only a stored object that this transaction has not changed can be turned   *)
+(* into a ghost; the next access loads its stored record.                                     *)
+Evictable == {id \in oids \cap DOMAIN heap \cap DOMAIN store : ~InSeq(reg, id)}
+EvictedHeap(S) == PGC(Reloaded(heap, S \cap Evictable), reg, store)
+Evict(S, what) ==
+  /\ heap' = EvictedHeap(S)
+  /\ act' = [op |-> what, k |-> 0, v |-> 0]
+  /\ res' = [impl |-> OK, abs |-> OK]
+  /\ UNCHANGED <<m, oids, reg, store, cm, ncommit, nops>>
 PNext == \/ (nops < MaxOps /\ \E k \in Keys : (\E v \in Vals : PSetItem(k, v)) \/ PDelItem(k))
          \/ (nops < MaxOps /\ PClear)
          \/ (ncommit < MaxCommits /\ nops > 0 /\ Commit)
@@ -318,6 +330,13 @@ AbortOK == act.op = "abort" =>
 WriterOK == HItems(heap) = <<AbsKeys(m), AbsVals(m)>> /\ HSound(heap)
 \* every stored reference resolves
 RefsOK == \A id \in LoadIds(store, {Root}) : id \in DOMAIN store
+
+\* evicting everything evictable changes nothing: same tree, sound, same items
+EvictTransparent ==
+  LET h2 == EvictedHeap(Evictable) IN
+  /\ Render(h2, Root) = Render(heap, Root)
+  /\ HSound(h2)
+  /\ HItems(h2) = HItems(heap)
 
 PView == <<heap, m, oids, reg, store, cm, ncommit, nops, act.op = "commit", act.op = "abort">>
 =============================================================================
